@@ -451,7 +451,10 @@ func H_C06_Node() {
 }
 
 // oneof: two different members in sequence - the last one wins and the earlier one is gone
-func H_C06_One() {
+func H_C06_One() { c06One(false) }
+func H_C10_One() { c06One(true) }
+
+func c06One(aliasCheck bool) {
 	first, _ := mkOne("a_")
 	second, which := mkOne("b_")
 	in := expOne(pbBuf(), first)
@@ -467,11 +470,12 @@ func H_C06_One() {
 	back := expOne(pbBuf(), m)
 	verifAssertBytesEq(back, expOne(pbBuf(), want), "the last oneof member on the wire is the one that is set, with its value")
 	verifAssertDecodesLikeRef(m, in, "Unmarshal result equals the message the reference runtime decodes")
-	verifAssertNoAlias(m, in, "safe-mode decoding does not alias the input buffer")
+	if aliasCheck {
+		verifAssertNoAlias(m, in, "safe-mode decoding does not alias the input buffer")
+	}
 	verifReach("end")
 }
 
-func H_C10_One() { H_C06_One() }
 
 // map entries: key and value in either order, omitted, duplicated; later entries with the same key win
 func mapsEntry(shape int, k int32, v string, k2 int32) []byte {
@@ -530,7 +534,10 @@ func H_C06_Maps_Shapes() {
 }
 
 // one entry per map kind, canonical form; and a repeated key (last entry wins)
-func H_C06_Maps_Kinds() {
+func H_C06_Maps_Kinds() { c06MapsKinds(false) }
+func H_C10_Maps_Kinds() { c06MapsKinds(true) }
+
+func c06MapsKinds(aliasCheck bool) {
 	m0 := &Maps{}
 	which := nondetInt("which")
 	verifAssume(which >= 1)
@@ -560,26 +567,31 @@ func H_C06_Maps_Kinds() {
 	verifAssert(err == nil, "Marshal of the decoded message")
 	verifAssertBytesEq(back, in, "decoding and re-encoding a single map entry reproduces it")
 	verifAssertDecodesLikeRef(m, in, "Unmarshal result equals the message the reference runtime decodes")
-	verifAssertNoAlias(m, in, "safe-mode decoding does not alias the input buffer")
+	if aliasCheck {
+		verifAssertNoAlias(m, in, "safe-mode decoding does not alias the input buffer")
+	}
 	verifReach("end")
 }
 
-func H_C10_Maps_Kinds() { H_C06_Maps_Kinds() }
 
-func H_C06_Mix() {
+func H_C06_Mix() { c06Mix(false) }
+func H_C10_Mix() { c06Mix(true) }
+
+func c06Mix(aliasCheck bool) {
 	src := mkMix("")
 	in := expMix(pbBuf(), src)
-	m := mkMix("d_")
+	m := &Mix{A: 9, B: "old", C: []uint32{1, 2}, D: &Leaf{A: 1}, E: true, G: []byte{7}} // pre-populated destination
 	err := m.Unmarshal(in)
 	verifAssert(err == nil, "Unmarshal accepts the canonical encoding")
 	back := expMix(pbBuf(), m)
 	verifAssertBytesEq(back, in, "every field is decoded to the encoded value; nothing of the previous contents remains")
 	verifAssertDecodesLikeRef(m, in, "Unmarshal result equals the message the reference runtime decodes")
-	verifAssertNoAlias(m, in, "safe-mode decoding does not alias the input buffer")
+	if aliasCheck {
+		verifAssertNoAlias(m, in, "safe-mode decoding does not alias the input buffer")
+	}
 	verifReach("end")
 }
 
-func H_C10_Mix() { H_C06_Mix() }
 
 // ======================================================================================================
 // C08: Unmarshal is total on arbitrary bytes (no panic, allocation in proportion to the input)
